@@ -230,9 +230,11 @@ func check(id string, args []string) (code int) {
 	if *tier != "thorough" || *overlay != "" {
 		return worst
 	}
-	// ---- thorough tier: (1) the same rules on a second load that includes test files and is type-checked for
-	// GOARCH=386 (build-tagged files, extra callers for who-may-call rules); (2) the checker's self-test for the
-	// property: every breaking variant must be reported, every repaired variant must be silent.
+	// ---- thorough tier: (1) a second load that includes the test files and a GOARCH=386 load of the non-test
+	// sources must type-check (what the build covers: test variants, files behind build tags, int-size
+	// assumptions); the rules themselves run on the plain load, because a package's test variant is a separate
+	// type-checked package whose named types are not identical to the ones its importers see; (2) the checker's
+	// self-test for the property: every breaking variant must be reported, every repaired variant must be silent.
 	w2, err := core.Load(core.LoadOptions{Root: *root, Tests: true})
 	if err == nil {
 		// non-test sources must also type-check for a 32-bit target (files behind build tags, int-size assumptions)
@@ -271,8 +273,8 @@ func check(id string, args []string) (code int) {
 				worst = 2
 			}
 		}
-		extra["second_load"] = fmt.Sprintf("with test files: packages=%d functions=%d; GOARCH=386 load of the non-test sources type-checked", len(w2.Pkgs), len(w2.Funcs))
-		c := runOne(p, *tier, *verif, w2, extra)
+		extra["second_load"] = fmt.Sprintf("type-checked with test files: packages=%d functions=%d; GOARCH=386 load of the non-test sources type-checked", len(w2.Pkgs), len(w2.Funcs))
+		c := runOne(p, *tier, *verif, w, extra)
 		if c > worst {
 			worst = c
 		}
